@@ -54,6 +54,7 @@ from fractions import Fraction
 from typing import Dict, List, Optional, Sequence, Tuple
 
 from engines import asyncfacts as af
+from engines import c11sign as sg
 from engines import linform
 from engines import polysym as ps
 from engines import pyfacts as pf
@@ -80,9 +81,9 @@ JP = 'batch/batch/driver/instance_collection/job_private.py'
 
 TARGETS = [
     dict(file=POOL, cls='PoolScheduler', func='_compute_fair_share', wrappers=('compute_fair_share',),
-         held=('running_cores_mcpu',), ready='ready_cores_mcpu', unit='mCPU'),
+         held=('running_cores_mcpu',), ready='ready_cores_mcpu', unit='mCPU', free_call=None),
     dict(file=JP, cls='JobPrivateInstanceManager', func='compute_fair_share', wrappers=(),
-         held=('n_creating_jobs', 'n_running_jobs'), ready='n_ready_jobs', unit='jobs'),
+         held=('n_creating_jobs', 'n_running_jobs'), ready='n_ready_jobs', unit='jobs', free_call='max_instances_to_create'),
 ]
 
 MUTATORS = ('pop', 'popitem', 'clear', 'update', 'setdefault', '__setitem__', '__delitem__')
@@ -1468,11 +1469,208 @@ def check_shortcuts(ctx: Ctx, rep: Rep, T: dict, S: Shape, lins: Dict[str, linfo
 
 
 # ======================================================================================
+# R9: a non-positive free amount hands out nothing  (sign / interval abstract interpretation; no loop shape is assumed)
+# ======================================================================================
+#
+# The statement quantifies over "all free-core amounts, including zero/negative".  For free <= 0 its clauses collapse to "every
+# allocation is 0" (non-negative, and the total does not exceed the free amount).  That is an interval fact, and it is decided here for
+# ARBITRARY control flow by engines/c11sign.py: the function is interpreted abstractly once per sign case of the free amount on entry
+# (free < 0, free == 0); record fields are non-negative integers, containers carry emptiness, every test refines the operands it
+# mentions, loops are iterated to a fixpoint.  For every store into a field of the returned records that is still reachable, the stored
+# interval and the interval of its *free-derived part* (the amount that was computed from the free amount) are judged:
+#     part == 0                                    nothing derived from the (non-positive) free amount is handed out          -> holds
+#     part may be < 0 and the stored value is      a negative free amount is consumed without a dominating test / clamp       -> VIOLATION
+#       not clamped at 0   (case free < 0)         (reported at the statement that reads the free amount)
+#     part > 0, or a constant != 0 is stored       cores are handed out although none is free                                 -> VIOLATION
+#     anything else that is not 0                  not decided by intervals (relational)                                      -> declined
+# Nothing is run; the example input in a message only illustrates a verdict the analysis has established.
+
+SIGN_CASES = (('free amount < 0 on entry', sg.Itv(-sg.INF, Fraction(-1)), True), ('free amount == 0 on entry', sg.ZERO, False))
+
+R9_CONTROL = """
+def sweep(self, free):
+    running = {}
+    total = {}
+    result = {}
+    starts = defaultdict(list)
+    ends = defaultdict(list)
+    for record in self.records():
+        user = record['user']
+        running[user] = record['held']
+        total[user] = record['held'] + record['ready']
+        starts[running[user]].append(user)
+        ends[total[user]].append(user)
+        record['share'] = 0
+        result[user] = record
+    GUARD
+    def give(user, mark):
+        result[user]['share'] = int(mark - running[user] + 0.5)
+    mark = 0
+    filling = {}
+    for level in sorted(starts.keys() | ends.keys()):
+        n = len(filling)
+        cost = n * (level - mark)
+        if n and cost > free:
+            mark += int(free / n + 0.5)
+            break
+        mark = level
+        free -= cost
+        for user in starts[level]:
+            filling[user] = None
+        for user in ends[level]:
+            del filling[user]
+            give(user, mark)
+    for user in filling:
+        give(user, mark)
+    return result
+"""
+
+
+def sign_case(fn: ast.AST, q: str, unit: str, free_param: Optional[str], free_call: Optional[str], fields: Sequence[str], label: str, entry: 'sg.Itv',
+              negative: bool, resolve=None, stored: Sequence[str] = ()) -> Tuple[List[Tuple[str, str, int]], Optional[str], dict]:
+    """([(key, message, line)], reason it cannot be decided | None, detail) for one sign case of the free amount"""
+    an = sg.Analyzer(fn, q, free_param, free_call, entry, fields, resolve)
+    an.record_fields = set(stored)
+    an.run()
+    bads: List[Tuple[str, str, int]] = []
+    und: Optional[str] = None
+    seen = set()
+    n_reach = 0
+    for ev in sorted(an.events.values(), key=lambda x: (x['node'].lineno, [c.lineno for c in x['chain']])):
+        v, st = ev['val'], ev['node']
+        n_reach += 1
+        store = f'`{pf.nsrc(st)[:90]}` at line {st.lineno}' + ''.join(f' (called by `{pf.nsrc(c)[:50]}` at line {c.lineno})' for c in ev['chain'])
+        if isinstance(v, sg.Top):
+            if v.tainted:
+                und = und or f'a value derived from the free amount reaches {store} through a construct that is not interpreted'
+            continue
+        if not isinstance(v, sg.Num):
+            continue
+        if v.fc.is_zero():
+            if v.itv.lo > 0 or v.itv.hi < 0:
+                key = f'{label}::{pf.nsrc(st)[:80]}'
+                if key not in seen:
+                    seen.add(key)
+                    bads.append((key, f'{label}: {store} is reachable and stores a value in {v.itv}, never 0: an allocation is made although nothing is free '
+                                 f'(the property demands 0 for every user); e.g. user {{a: running 0 ready 4000}} and {-2000 if negative else 0} {unit} free', st.lineno))
+            continue
+        neg = ev.get('neg')          # a visit on which the negative part stems from a read of a definitely negative free amount
+        w = neg if neg is not None else v
+        orgs = sorted((an.origins[o] for o in w.origins if o in an.origins), key=lambda o: o['node'].lineno)
+        direct = bool(orgs) and all(o['node'] is st for o in orgs)
+        where = '; '.join(f'`{pf.nsrc(o["node"])[:90]}` at line {o["node"].lineno} (free amount there: {o.get("neg", o["first"])})' for o in orgs) or 'the store itself'
+        okey = '|'.join(pf.nsrc(o['node'])[:80] for o in orgs) or pf.nsrc(st)[:80]
+        if neg is not None:
+            key = f'{label}::{okey}'
+            if key not in seen:
+                seen.add(key)
+                how = (f'That statement stores a value in {neg.itv} (free-derived part {neg.fc}): the user is allocated a negative amount' if direct else
+                       f'The amount derived from it (part {neg.fc}) reaches {store} (stored value {neg.itv}): the level the allocation is measured against drops below the '
+                       f'running level of the users being filled and they are allocated a negative amount')
+                bads.append((key, f'{label}: the free amount is consumed at {where}, which is reachable with a negative free amount: no test on the way to it excludes '
+                             f'free < 0 and nothing clamps the result.  {how}, where the property demands 0 for everybody (non-negative, and nothing is free); '
+                             f'e.g. user {{a: running 0 ready 4000}} and -2000 {unit} free', orgs[0]['node'].lineno if orgs else st.lineno))
+        elif v.fc.lo > 0 and v.itv.hi > 0:
+            key = f'{label}::{okey}'
+            if key not in seen:
+                seen.add(key)
+                bads.append((key, f'{label}: the amount derived from the free amount at {where} is positive (part {v.fc}) and reaches {store}: cores are handed out although '
+                             f'none is free; e.g. user {{a: running 0 ready 4000}} and {-2000 if negative else 0} {unit} free', orgs[0]['node'].lineno if orgs else st.lineno))
+        elif (v.fc.lo < 0 and v.itv.lo < 0) or (v.fc.hi > 0 and v.itv.hi > 0):
+            und = und or (f'{label}: a free-derived part {v.fc} reaches {store} (consumed at {where}); whether it is 0 is a relational fact the interval domain cannot decide')
+    if an.opaque and not bads:
+        und = und or f'{label}: {an.opaque[0]}'
+    return bads, und, {'allocation_stores_reachable': n_reach, 'loops_iterated_to_fixpoint': an.n_loops, 'helper_calls_interpreted': an.n_calls,
+                       'free_derived_part_of_every_stored_value': '0'}
+
+
+def check_sign(ctx: Ctx, m: pf.Module, T: dict) -> None:
+    q = f"{T['cls']}.{T['func']}"
+    u = T['unit']
+    fields = tuple(T['held']) + (T['ready'],)
+    # positive control: a sweep over sorted break points (a different loop shape on purpose), without and with a dominating test
+    ctl = {}
+    for name, guard in (('unguarded', 'pass'), ('guarded', 'if free <= 0:\n        return result')):
+        cfn = ast.parse(R9_CONTROL.replace('GUARD', guard)).body[0]
+        ctl[name] = [sign_case(cfn, 'R9 control', u, 'free', None, ('held', 'ready'), lab, ent, neg) for lab, ent, neg in SIGN_CASES]
+    ctx.need(ctl['unguarded'][0][0] and 'mark += int(free / n + 0.5)' in ctl['unguarded'][0][0][0][1] and all(not b and d is None for b, d, _ in ctl['guarded']),
+             f'{q}: R9 positive control failed ({ctl})')
+    ctx.ok('R9', f'positive-control::{q}::synthetic break-point sweep (free amount consumed without a test: refused; behind `if free <= 0: return`: accepted)', nontrivial=False)
+    # the function; calls of module-level functions and of plain methods of the same class are interpreted at the call site (an extracted
+    # helper must hide neither a store nor a test); every other call is opaque (declined when a free-derived value is passed to it)
+    cls = m.cls(T['cls'])
+    fn = af.method(m, cls, T['func'])
+    excl = {T['func']} | {x for x in (T['free_call'],) if x}
+    mod_funcs = {f.name: f for f in m.tree.body if isinstance(f, (ast.FunctionDef, ast.AsyncFunctionDef))}
+    methods = {f.name: f for f in cls.body if isinstance(f, (ast.FunctionDef, ast.AsyncFunctionDef)) and f.name not in excl}
+    recv = fn.args.args[0].arg if fn.args.args else 'self'
+
+    def resolve(call: ast.Call):
+        f = call.func
+        if isinstance(f, ast.Name) and f.id in mod_funcs and not mod_funcs[f.id].decorator_list:
+            return mod_funcs[f.id], False
+        if isinstance(f, ast.Attribute) and isinstance(f.value, ast.Name) and f.value.id == recv and f.attr in methods:
+            decs = pf.decorator_names(methods[f.attr])
+            if not decs:
+                return methods[f.attr], True
+            if decs == ['staticmethod']:
+                return methods[f.attr], False
+        return None
+
+    params = [a.arg for a in fn.args.args if a.arg not in ('self', 'cls')]
+    free_param = None
+    if T['free_call'] is None:
+        ctx.need(len(params) == 1 and not fn.args.vararg and not fn.args.kwarg and not fn.args.kwonlyargs, f'{q}: expected the free amount as the only parameter, found {params}')
+        free_param = params[0]
+    else:
+        ctx.need(any(isinstance(c, ast.Call) and isinstance(c.func, ast.Attribute) and c.func.attr == T['free_call'] for c in ast.walk(fn)),
+                 f'{q}: the free amount is no longer taken from {T["free_call"]}()')
+    # the fields of the returned records that the function, or a helper it calls, writes with a subscript store
+    scope, todo = [], [fn]
+    while todo and len(scope) < 12:
+        g = todo.pop()
+        if any(g is x for x in scope):
+            continue
+        scope.append(g)
+        for c in ast.walk(g):
+            if isinstance(c, ast.Call):
+                r = resolve(c)
+                if r is not None:
+                    todo.append(r[0])
+    stored = {n.slice.value for g in scope for n in ast.walk(g) if isinstance(n, ast.Subscript) and isinstance(n.ctx, ast.Store)
+              and isinstance(n.slice, ast.Constant) and isinstance(n.slice.value, str)} - set(fields)
+    n_stores = len(stored)
+    ctx.need(n_stores >= 1, f'{q}: no store into a field of the returned records found')
+    undecided: Optional[str] = None
+    for label, entry, negative in SIGN_CASES:
+        bads, und, detail = sign_case(fn, q, u, free_param, T['free_call'], fields, label, entry, negative, resolve, sorted(stored))
+        cons = f'{m.rel}::{q}::{label} nothing is handed out'
+        if bads:
+            for key, msg, line in bads:
+                ctx.bad('R9', f'{m.rel}::{q}::{key}', msg, m.path, line)
+        elif und is not None:
+            undecided = undecided or und
+        else:
+            detail['record_fields_written'] = sorted(stored)
+            ctx.ok('R9', cons, detail)
+    ctx.unit('sign_cases', len(SIGN_CASES))
+    if undecided is not None:
+        raise AnalysisError(f'{q}: {undecided}')
+
+
+# ======================================================================================
 
 
 def check_target(ctx: Ctx, T: dict) -> None:
     m = pf.load(T['file'])
     ctx.unit('files')
+    # R9 does not depend on the two-SortedSet shape: it is evaluated first, so that what it establishes is reported even when the
+    # step obligations below have to be declined (a rewritten algorithm); what it cannot decide is raised after them
+    undecided: Optional[AnalysisError] = None
+    try:
+        check_sign(ctx, m, T)
+    except AnalysisError as e:
+        undecided = e
     S = discover(ctx, m, T)
     ctx.unit('functions')
     rep = Rep(ctx, m, S.q)
@@ -1489,6 +1687,8 @@ def check_target(ctx: Ctx, T: dict) -> None:
         ctx.unit('situation_table_rows', S.n_rows)
     finally:
         rep.flush()
+    if undecided is not None:
+        raise undecided
 
 
 def run(ctx: Ctx) -> None:
@@ -1508,6 +1708,9 @@ def run(ctx: Ctx) -> None:
     ctx.rule('R8', 'no input bypasses the water filling with a different result: a shortcut exit before the allocation loop (fast path / early return) stores, in every '
                    'scenario of the finite order domain {0, free, ready, total demand} x {no / one / several users with demand}, the closed-form water-filling allocation '
                    '(0 when free <= 0; ready when everything fits; min(ready, free) for a single claimant), within [0, ready] otherwise', 4)
+    ctx.rule('R9', 'a non-positive free amount hands out nothing, whatever the shape of the loops: in the sign cases free < 0 and free == 0 on entry (interval abstract '
+                   'interpretation with test refinement, container emptiness and loop fixpoints) every reachable store into the returned records stores a value whose '
+                   'free-derived part is 0; a negative free amount consumed without a dominating test or clamp is a violation', 4)
     ctx.assume('the query returns one row per user (GROUP BY user) with non-negative integer counters (CAST ... AS SIGNED); the free amount is an integer')
     ctx.assume('sortedcontainers.SortedSet(key=f) keeps its elements ordered by f as long as f(x) does not change while x is in the set; [0] is a minimum')
     ctx.assume('the induction over loop iterations (invariant I in the module docstring) and the rounding bounds are argued by hand from the decided step obligations')
